@@ -2,6 +2,7 @@
    under test — do not edit.  Each definition is the translation of one function's source text;
    Proofs/GenEq*.v prove it equal to the hand-written model for all inputs. *)
 From CG Require Import Model.Metrics Model.Slice Model.Loop Model.Recur Model.Cache.
+From CG Require Import Model.LoopMem.
 
 
 (* calgebra/interval.py: Interval.finite_start *)
@@ -989,14 +990,14 @@ Definition g_recur_occurrence_to_interval {DT : Type} {TD : Type} (self_start_se
 (* calgebra/metrics.py: _period_windows_with_dt *)
 Definition g_period_windows_dt {DT : Type} {TD : Type} (fuel : nat) (p_fromtimestamp : Z -> DT) (p_ymd : Z -> Z -> Z -> DT) (p_ymdh : Z -> Z -> Z -> Z -> DT) (p_hours : Z -> TD) (p_days : Z -> TD) (p_weeks : Z -> TD) (p_add : DT -> TD -> DT) (p_sub : DT -> TD -> DT) (p_lt : DT -> DT -> bool) (p_timestamp : DT -> Z) (p_weekday : DT -> Z) (p_year : DT -> Z) (p_month : DT -> Z) (p_day : DT -> Z) (p_hour : DT -> Z) (start_ts : Z) (end_ts : Z) (period : Metrics.period) : res (list ((DT * Z * Z))) :=
   if (start_ts >=? end_ts) then
-    (RDone (@nil (DT * Z * Z)))
+    (RDone (@nil ((DT * Z * Z))))
   else
     let zone := tt in
     let start_dt := (p_fromtimestamp start_ts) in
     let end_dt := (p_fromtimestamp end_ts) in
     match period with
     | Metrics.PHour =>
-      let windows := (@nil (DT * Z * Z)) in
+      let windows := (@nil ((DT * Z * Z))) in
       let current := (p_ymdh (p_year start_dt) (p_month start_dt) (p_day start_dt) (p_hour start_dt)) in
       iter_while fuel
         (fun '(windows, current) => (p_lt current end_dt))
@@ -1011,7 +1012,7 @@ Definition g_period_windows_dt {DT : Type} {TD : Type} (fuel : nat) (p_fromtimes
           (RDone windows))
         (windows, current)
     | Metrics.PDay =>
-      let windows := (@nil (DT * Z * Z)) in
+      let windows := (@nil ((DT * Z * Z))) in
       let current := (p_ymd (p_year start_dt) (p_month start_dt) (p_day start_dt)) in
       iter_while fuel
         (fun '(windows, current) => (p_lt current end_dt))
@@ -1026,7 +1027,7 @@ Definition g_period_windows_dt {DT : Type} {TD : Type} (fuel : nat) (p_fromtimes
           (RDone windows))
         (windows, current)
     | Metrics.PWeek =>
-      let windows := (@nil (DT * Z * Z)) in
+      let windows := (@nil ((DT * Z * Z))) in
       let days_since_monday := (p_weekday start_dt) in
       let week_start := (p_sub (p_ymd (p_year start_dt) (p_month start_dt) (p_day start_dt)) (p_days days_since_monday)) in
       let current := week_start in
@@ -1043,7 +1044,7 @@ Definition g_period_windows_dt {DT : Type} {TD : Type} (fuel : nat) (p_fromtimes
           (RDone windows))
         (windows, current)
     | Metrics.PMonth =>
-      let windows := (@nil (DT * Z * Z)) in
+      let windows := (@nil ((DT * Z * Z))) in
       let current := (p_ymd (p_year start_dt) (p_month start_dt) 1) in
       iter_while fuel
         (fun '(windows, current) => (p_lt current end_dt))
@@ -1064,7 +1065,7 @@ Definition g_period_windows_dt {DT : Type} {TD : Type} (fuel : nat) (p_fromtimes
           (RDone windows))
         (windows, current)
     | Metrics.PYear =>
-      let windows := (@nil (DT * Z * Z)) in
+      let windows := (@nil ((DT * Z * Z))) in
       let current := (p_ymd (p_year start_dt) 1 1) in
       iter_while fuel
         (fun '(windows, current) => (p_lt current end_dt))
@@ -1081,3 +1082,106 @@ Definition g_period_windows_dt {DT : Type} {TD : Type} (fuel : nat) (p_fromtimes
     | Metrics.PFull =>
       (RDone [(start_dt, start_ts, end_ts)])
     end.
+
+(* calgebra/mutable/memory.py: _interval_sort_key *)
+Definition g_interval_sort_key (interval_ : ivl) : (Z * Z) :=
+  ((fstart interval_), (fend interval_)).
+
+(* calgebra/mutable/memory.py: MemoryTimeline.fetch *)
+Definition g_mem_fetch {ID : Type} {PAT : Type} (pattern_fetch : PAT -> option Z -> option Z -> bool -> list ivl) (self_static_intervals : list ivl) (self_recurring_patterns : list ((ID * PAT))) (start : option Z) (end_ : option Z) (reverse : bool) : list ivl :=
+  let iterators := (@nil (list ivl)) in
+  iter_for
+    (fun iterators '(_, pattern) =>
+      let iterators := (iterators ++ [(pattern_fetch pattern start end_ reverse)]) in
+      (SCont iterators))
+    (fun iterators =>
+      let iterators :=
+        if (nonempty self_static_intervals) then
+          let iterators := (iterators ++ [(g_mem_fetch_static self_static_intervals start end_ reverse)]) in
+          iterators
+        else
+          iterators in
+      if reverse then
+        (merge_by lt_rev iterators)
+      else
+        (merge_by lt_fwd iterators))
+    iterators self_recurring_patterns.
+
+(* calgebra/mutable/memory.py: MemoryTimeline._remove_recurring_instance *)
+Definition g_mem_remove_recurring_instance {ID : Type} {PAT : Type} {EXS : Type} (recurring_id_of : ivl -> option ID) (id_truthy : ID -> bool) (id_eqb : ID -> ID -> bool) (pattern_fetch : PAT -> option Z -> option Z -> bool -> list ivl) (pattern_exdates : PAT -> EXS) (exs_add : EXS -> Z -> EXS) (pattern_set_exdates : PAT -> EXS -> PAT) (self_recurring_patterns : list ((ID * PAT))) (interval_ : ivl) : (list ((ID * PAT)) * (list wres)) :=
+  let recurring_id := (recurring_id_of interval_) in
+  if (is_none recurring_id) then
+    (self_recurring_patterns, [(mkWR false (Some interval_) (Some ValueError))])
+  else
+    iter_for
+      (fun self_recurring_patterns '(i_, (stored_id, pattern)) =>
+        if (eq_opt id_eqb stored_id recurring_id) then
+          if (is_none (st interval_)) then
+            (SRet (self_recurring_patterns, [(mkWR false (Some interval_) (Some ValueError))]))
+          else
+            if (negb (existsb (fun occ => (oZ_eqb (st occ) (st interval_))) (pattern_fetch pattern (st interval_) (Some ((ozd (st interval_)) + 1)) false))) then
+              (SRet (self_recurring_patterns, [(mkWR false (Some interval_) (Some ValueError))]))
+            else
+              let pattern := (pattern_set_exdates pattern (exs_add (pattern_exdates pattern) (ozd (st interval_)))) in
+              let self_recurring_patterns := (py_set_index self_recurring_patterns i_ (stored_id, pattern)) in
+              (SRet (self_recurring_patterns, [(mkWR true (Some interval_) None)]))
+        else
+          (SCont self_recurring_patterns))
+      (fun self_recurring_patterns =>
+        (self_recurring_patterns, [(mkWR false (Some interval_) (Some ValueError))]))
+      self_recurring_patterns (py_enumerate self_recurring_patterns).
+
+(* calgebra/mutable/memory.py: MemoryTimeline._remove_interval *)
+Definition g_mem_remove_interval {ID : Type} {PAT : Type} {EXS : Type} (recurring_id_of : ivl -> option ID) (id_truthy : ID -> bool) (id_eqb : ID -> ID -> bool) (pattern_fetch : PAT -> option Z -> option Z -> bool -> list ivl) (pattern_exdates : PAT -> EXS) (exs_add : EXS -> Z -> EXS) (pattern_set_exdates : PAT -> EXS -> PAT) (self_static_intervals : list ivl) (self_recurring_patterns : list ((ID * PAT))) (interval_ : ivl) : (list ivl * list ((ID * PAT)) * (list wres)) :=
+  if (existsb (ivl_eqb interval_) self_static_intervals) then
+    let self_static_intervals := (sl_remove interval_ self_static_intervals) in
+    (self_static_intervals, self_recurring_patterns, [(mkWR true (Some interval_) None)])
+  else
+    let recurring_id := (recurring_id_of interval_) in
+    if (truthy_opt id_truthy recurring_id) then
+      let '(self_recurring_patterns, r1_) := (g_mem_remove_recurring_instance recurring_id_of id_truthy id_eqb pattern_fetch pattern_exdates exs_add pattern_set_exdates self_recurring_patterns interval_) in
+      (self_static_intervals, self_recurring_patterns, r1_)
+    else
+      (self_static_intervals, self_recurring_patterns, [(mkWR false (Some interval_) (Some ValueError))]).
+
+(* calgebra/mutable/memory.py: MemoryTimeline._remove_series *)
+Definition g_mem_remove_series {ID : Type} {PAT : Type} {EXS : Type} (recurring_id_of : ivl -> option ID) (id_truthy : ID -> bool) (id_eqb : ID -> ID -> bool) (pattern_fetch : PAT -> option Z -> option Z -> bool -> list ivl) (pattern_exdates : PAT -> EXS) (exs_add : EXS -> Z -> EXS) (pattern_set_exdates : PAT -> EXS -> PAT) (self_static_intervals : list ivl) (self_recurring_patterns : list ((ID * PAT))) (interval_ : ivl) : (list ivl * list ((ID * PAT)) * (list wres)) :=
+  let recurring_id := (recurring_id_of interval_) in
+  if (is_none recurring_id) then
+    let '(self_static_intervals, self_recurring_patterns, r1_) := (g_mem_remove_interval recurring_id_of id_truthy id_eqb pattern_fetch pattern_exdates exs_add pattern_set_exdates self_static_intervals self_recurring_patterns interval_) in
+    (self_static_intervals, self_recurring_patterns, r1_)
+  else
+    iter_for
+      (fun self_recurring_patterns '(i, (pattern_id, _)) =>
+        if (eq_opt id_eqb pattern_id recurring_id) then
+          let self_recurring_patterns := (py_pop self_recurring_patterns i) in
+          (SRet (self_static_intervals, self_recurring_patterns, [(mkWR true None None)]))
+        else
+          (SCont self_recurring_patterns))
+      (fun self_recurring_patterns =>
+        (self_static_intervals, self_recurring_patterns, [(mkWR false None (Some ValueError))]))
+      self_recurring_patterns (py_enumerate self_recurring_patterns).
+
+(* calgebra/mutable/memory.py: MemoryTimeline._remove_many *)
+Definition g_mem_remove_many {ID : Type} {PAT : Type} {EXS : Type} (recurring_id_of : ivl -> option ID) (id_truthy : ID -> bool) (id_eqb : ID -> ID -> bool) (pattern_fetch : PAT -> option Z -> option Z -> bool -> list ivl) (pattern_exdates : PAT -> EXS) (exs_add : EXS -> Z -> EXS) (pattern_set_exdates : PAT -> EXS -> PAT) (self_static_intervals : list ivl) (self_recurring_patterns : list ((ID * PAT))) (intervals : list ivl) : (list ivl * list ((ID * PAT)) * (list wres)) :=
+  let results := (@nil wres) in
+  iter_for
+    (fun '(results, self_static_intervals, self_recurring_patterns) interval_ =>
+      let '(self_static_intervals, self_recurring_patterns, r1_) := (g_mem_remove_interval recurring_id_of id_truthy id_eqb pattern_fetch pattern_exdates exs_add pattern_set_exdates self_static_intervals self_recurring_patterns interval_) in
+      let results := (results ++ r1_) in
+      (SCont (results, self_static_intervals, self_recurring_patterns)))
+    (fun '(results, self_static_intervals, self_recurring_patterns) =>
+      (self_static_intervals, self_recurring_patterns, results))
+    (results, self_static_intervals, self_recurring_patterns) intervals.
+
+(* calgebra/mutable/memory.py: MemoryTimeline._remove_many_series *)
+Definition g_mem_remove_many_series {ID : Type} {PAT : Type} {EXS : Type} (recurring_id_of : ivl -> option ID) (id_truthy : ID -> bool) (id_eqb : ID -> ID -> bool) (pattern_fetch : PAT -> option Z -> option Z -> bool -> list ivl) (pattern_exdates : PAT -> EXS) (exs_add : EXS -> Z -> EXS) (pattern_set_exdates : PAT -> EXS -> PAT) (self_static_intervals : list ivl) (self_recurring_patterns : list ((ID * PAT))) (intervals : list ivl) : (list ivl * list ((ID * PAT)) * (list wres)) :=
+  let results := (@nil wres) in
+  iter_for
+    (fun '(results, self_static_intervals, self_recurring_patterns) interval_ =>
+      let '(self_static_intervals, self_recurring_patterns, r1_) := (g_mem_remove_series recurring_id_of id_truthy id_eqb pattern_fetch pattern_exdates exs_add pattern_set_exdates self_static_intervals self_recurring_patterns interval_) in
+      let results := (results ++ r1_) in
+      (SCont (results, self_static_intervals, self_recurring_patterns)))
+    (fun '(results, self_static_intervals, self_recurring_patterns) =>
+      (self_static_intervals, self_recurring_patterns, results))
+    (results, self_static_intervals, self_recurring_patterns) intervals.
